@@ -24,7 +24,9 @@ CLAIM = dict(
     "on the outer boundary in that direction, interior/exterior partition each axis, interior faces (dim>=2) are exactly "
     "those whose tangential neighbour faces all exist; corner tables (tabulated from the code) lie on the face. "
     "Tie: every public Grid table equals the model on all 186 shapes of the stated range plus random larger/thin shapes.",
-    note="numpy slicing/ravel('F')/fancy assignment are modelled pointwise (tied by the exhaustive correspondence).",
+    note="connectivity / reverse_connectivity are modelled as the code builds them (initial array + assignments through index arrays, "
+    "connTable / revTable) and PROVED equal to the pointwise conn / rev (conn_table_eq, rev_table_eq, rev_table_inverse); the driver "
+    "dumps the scatter-built tables. numpy slicing + ravel('F') of the index arrays is modelled pointwise (tied by the exhaustive correspondence).",
     technique="Lean 4 proof (induction over the shape list) + exhaustive-in-range differential correspondence + G1 tables",
 )
 
